@@ -5,6 +5,7 @@
 //   HarmonicNumbers::getBitMapEstimate                    (HLL linear-counting estimator, k x hits)
 //   CubicInterpolation::usingXAndYTables                  (HLL coupon estimator, coupon count)
 //   INVERSE_POWERS_OF_2, KXP_BYTE_TABLE                   (exact table contents)
+//   exact one-sided coverage of the binomial bounds        (true count N x theta x std devs, binomial pmf summed)
 // The grid is sharded by case index; every grid point is an "evaluation".
 #include "vf/core.hpp"
 #include "vf/c06_common.hpp"
@@ -52,8 +53,83 @@ static std::vector<double> build_thetas(uint64_t ns, bool thorough) {
   return v;
 }
 
+// ------------------------------------------------------------------ exact coverage of the binomial bounds
+// A sketch that samples N distinct items with probability theta retains K ~ Binomial(N, theta) of them.  The
+// one-sided coverage  P[lb(K, theta, sd) <= N]  and  P[ub(K, theta, sd) >= N]  is computed EXACTLY by summing the
+// binomial pmf (log-gamma form; terms below 1e-18 are dropped and counted against the coverage) and must reach the
+// nominal one-sided level Phi(sd) minus a tolerance.  Tolerances per (side, std devs) = 3x the worst deficit observed on
+// the unchanged tree over the thorough grid, rounded up, floor 0.001.  Observed worst (coverage - nominal):
+//   lb: +0.00005 / -0.00244 (N*theta ~ 100) / -0.00061;   ub: +0.00009 / -0.00024 / -0.00256 (theta 0.999..0.99999)
+static const double COV_TOL_LB[4] = {0, 0.001, 0.0075, 0.002};
+static const double COV_TOL_UB[4] = {0, 0.001, 0.001, 0.008};
+static const double ONE_SIDED[4] = {0, 0.8413447460685429, 0.9772498680518208, 0.9986501019683699};
+static std::vector<uint64_t> build_cov_ns(bool thorough) {
+  std::vector<uint64_t> v;
+  for (uint64_t n = 1; n <= (thorough ? 200u : 60u); ++n) v.push_back(n);
+  for (double x = (thorough ? 200 : 60); x <= (thorough ? 20000 : 6000); x *= (thorough ? 1.05 : 1.12)) v.push_back(static_cast<uint64_t>(x));
+  std::sort(v.begin(), v.end()); v.erase(std::unique(v.begin(), v.end()), v.end());
+  return v;
+}
+static const std::vector<uint64_t>& COV_NS() { static std::vector<uint64_t> v = build_cov_ns(G().thorough()); return v; }
+static std::vector<double> build_cov_thetas(bool thorough) {
+  std::vector<double> v;
+  const int nlog = thorough ? 120 : 48;
+  for (int i = 0; i <= nlog; ++i) v.push_back(1e-4 * std::pow(9000.0, static_cast<double>(i) / nlog));       // 1e-4 .. 0.9
+  for (double t : {0.003, 0.01, 0.02, 0.05, 0.1, 0.25, 0.5, 0.75, 0.95, 0.99, 0.999}) v.push_back(t);
+  // branch thresholds of binomial_bounds.hpp: theta = K/360 (K = 2..120) and their neighbours, theta = 1 - 1e-5
+  for (int k : {2, 3, 5, 8, 13, 21, 34, 55, 89, 119, 120}) { const double t = k / 360.0; v.push_back(t); v.push_back(std::nextafter(t, 0.0)); v.push_back(std::nextafter(t, 1.0)); v.push_back(t * 0.98); v.push_back(t * 1.02); }
+  { const double t1 = 1.0 - 1e-5; v.push_back(t1); v.push_back(std::nextafter(t1, 0.0)); v.push_back(std::nextafter(t1, 2.0)); v.push_back(1.0 - 1e-4); }
+  std::sort(v.begin(), v.end()); v.erase(std::unique(v.begin(), v.end()), v.end());
+  return v;
+}
+
+static void run_exact_coverage(uint64_t N) {
+  describe("exact coverage of binomial_bounds for true count N=" + std::to_string(N));
+  static const std::vector<double> thetas = build_cov_thetas(G().thorough());
+  const double dn = static_cast<double>(N);
+  uint64_t cells = 0, small_regime = 0, h = N;
+  double worst[7] = {1, 1, 1, 1, 1, 1, 1}, worst_th[7] = {0, 0, 0, 0, 0, 0, 0};   // [sd] lower bound, [3 + sd] upper bound
+  for (double th : thetas) {
+    const double mean = dn * th, sdv = std::sqrt(dn * th * (1 - th));
+    double covL[4] = {0, 0, 0, 0}, covU[4] = {0, 0, 0, 0}, mass = 0;
+    const uint64_t x_lo = static_cast<uint64_t>(std::max(0.0, std::floor(mean - 12 * sdv - 40))), x_hi = std::min<uint64_t>(N, static_cast<uint64_t>(mean + 12 * sdv + 40));
+    bool in_small = false;
+    for (uint64_t x = x_lo; x <= x_hi; ++x) {
+      const double dx = static_cast<double>(x);
+      const double lp = std::lgamma(dn + 1.0) - std::lgamma(dx + 1.0) - std::lgamma(dn - dx + 1.0) + dx * std::log(th) + (dn - dx) * std::log1p(-th);
+      const double p = std::exp(lp);
+      if (p < 1e-18) continue;
+      mass += p;
+      if (x >= 2 && x <= 120 && th < dx / 360.0 && p > 1e-4) in_small = true;
+      for (unsigned sd = 1; sd <= 3; ++sd) {
+        if (binomial_bounds::get_lower_bound(x, th, sd) <= dn) covL[sd] += p;
+        if (binomial_bounds::get_upper_bound(x, th, sd) >= dn) covU[sd] += p;
+      }
+    }
+    auto ctx = [&](unsigned sd) { return "N=" + std::to_string(N) + " theta=" + str(th) + " std_devs=" + std::to_string(sd) + " P[lb<=N]=" + str(covL[sd]) + " P[ub>=N]=" + str(covU[sd]) +
+                                        " nominal one-sided=" + str(ONE_SIDED[sd]) + " tolerance lb/ub=" + str(COV_TOL_LB[sd]) + "/" + str(COV_TOL_UB[sd]) + " pmf mass summed=" + str(mass); };
+    VF_CHECK(mass > 1 - 1e-9, "harness|exact-coverage|pmf-mass-incomplete", ctx(1));
+    for (unsigned sd = 1; sd <= 3; ++sd) {
+      VF_CHECK(covL[sd] >= ONE_SIDED[sd] - COV_TOL_LB[sd], "binomial_bounds|exact-coverage|lower-bound-above-true-count-too-often", ctx(sd));
+      VF_CHECK(covU[sd] >= ONE_SIDED[sd] - COV_TOL_UB[sd], "binomial_bounds|exact-coverage|upper-bound-below-true-count-too-often", ctx(sd));
+      if (covL[sd] - ONE_SIDED[sd] < worst[sd]) { worst[sd] = covL[sd] - ONE_SIDED[sd]; worst_th[sd] = th; }
+      if (covU[sd] - ONE_SIDED[sd] < worst[3 + sd]) { worst[3 + sd] = covU[sd] - ONE_SIDED[sd]; worst_th[3 + sd] = th; }
+      h = mix64(h, static_cast<uint64_t>(covL[sd] * 1e9) ^ static_cast<uint64_t>(covU[sd] * 1e9));
+    }
+    ++cells; if (in_small) ++small_regime;
+  }
+  count("grid_exact_coverage_cells", cells);
+  count("grid_exact_coverage_cells_in_equiv_table_regime", small_regime);
+  {   // calibration record (ignored by the driver): worst coverage minus nominal for lb sd1..3, ub sd1..3 and the theta where it occurs
+    std::string w = "[", t = "[";
+    for (int i = 1; i <= 6; ++i) { w += str(worst[i]) + (i < 6 ? "," : "]"); t += str(worst_th[i]) + (i < 6 ? "," : "]"); }
+    emit(std::string("{\"t\":\"cov\",\"N\":") + std::to_string(N) + ",\"worst\":" + w + ",\"theta\":" + t + "}");
+  }
+  sig(h);
+}
+
 // ------------------------------------------------------------------ case layout
-enum Kind { K_ICON, K_BITMAP, K_MISC, K_COUPON, K_BINOM };
+enum Kind { K_ICON, K_BITMAP, K_MISC, K_COUPON, K_BINOM, K_EXACTCOV };
 struct CaseDef { Kind kind; uint64_t arg; };
 static std::vector<CaseDef> build_cases() {
   std::vector<CaseDef> c;
@@ -62,6 +138,7 @@ static std::vector<CaseDef> build_cases() {
   c.push_back({K_MISC, 0});
   c.push_back({K_COUPON, 0});
   for (uint64_t i = 0; i < NS().size(); ++i) c.push_back({K_BINOM, i});
+  for (uint64_t i = 0; i < COV_NS().size(); ++i) c.push_back({K_EXACTCOV, i});
   return c;
 }
 static const std::vector<CaseDef>& cases() { static std::vector<CaseDef> c = build_cases(); return c; }
@@ -242,6 +319,7 @@ void run_case(uint64_t idx, Rng& r) {
     case K_MISC: run_misc(); break;
     case K_COUPON: run_coupon(); break;
     case K_BINOM: run_binom(NS()[c.arg]); break;
+    case K_EXACTCOV: run_exact_coverage(COV_NS()[c.arg]); break;
   }
 }
 
